@@ -49,14 +49,16 @@ def run_one(pid, args, seed):
                 f for f in result.findings if f.key == only]
             if not result.findings:
                 print(f'replay: finding {only} no longer present')
-        rc = report.finish(result, program, seed)
-        if rc == 0 and args.tier == 'thorough' and not args.no_selftest \
+        st_ok = True
+        if args.tier == 'thorough' and not args.no_selftest \
                 and not args.replay:
             from . import selftest
-            ok = selftest.run(pid, args.repo)
-            if not ok:
-                print(f'SELFTEST-FAIL property={pid}')
-                return 2
+            st_ok, summary = selftest.run(pid, args.repo)
+            result.counters['selftest'] = summary
+        rc = report.finish(result, program, seed)
+        if not st_ok:
+            print(f'SELFTEST-FAIL property={pid}')
+            return 2
         return rc
     except frontend.AnalysisError as e:
         print(f'ANALYSIS-ERROR property={pid}: {e}')
